@@ -5,6 +5,7 @@ import (
 	"encoding/binary"
 	"encoding/json"
 	"fmt"
+	"io"
 
 	"verifharness/internal/core"
 	"verifharness/internal/imggen"
@@ -209,9 +210,15 @@ func c18Check(cs c18Case) (kind, msg string, over int64) {
 	}
 	// second clause: the file truncated just after that point loads identically
 	if f.needEnd <= len(f.head) {
-		cut := summarise(loadWith(cs.Loader, bytes.NewReader(f.head[:f.needEnd])))
-		if !cut.same(whole) {
-			return "truncated-differs", fmt.Sprintf("%+v: whole file gives %s, file truncated after the last needed structure (%d bytes) gives %s", cs, sumStr(whole), f.needEnd, sumStr(cut)), over
+		for _, how := range []string{"bytes.Reader", "data+eof", "4096+data+eof", "random17"} {
+			var rd io.Reader = bytes.NewReader(f.head[:f.needEnd])
+			if how != "bytes.Reader" {
+				rd = c08Source(f.head[:f.needEnd], how, cs.Seed)
+			}
+			cut := summarise(loadWith(cs.Loader, rd))
+			if !cut.same(whole) {
+				return "truncated-differs", fmt.Sprintf("%+v: whole file gives %s, file truncated after the last needed structure (%d bytes, delivered as %s) gives %s", cs, sumStr(whole), f.needEnd, how, sumStr(cut)), over
+			}
 		}
 	}
 	return "", "ok", over
